@@ -344,3 +344,48 @@ def c4_no_escape(ctx, res: Result, ci: ClassInfo, private_field: str, need_depth
                         res.bad("C4-no-internal-write", inst, ev.site(), fi.qualname, f"method writes the private state in place: {describe(ev)}", construct=src(ev.node)[:300])
                         break
     return n
+
+
+def c6_no_shared_module_object(ctx, res: Result, classes, rule="C6-no-shared-default-object") -> int:
+    """No field of a long-lived object may hold a module-level *mutable* object (an instance of a repository class,
+    a list or a dict): every instance created with the default would share - and, through its public configuration,
+    modify - one and the same object."""
+    n = 0
+    for ci in classes:
+        for fi in ci.all_funcs():
+            s = ctx.eng.summary(fi)
+            for (loc, sel), (val, _strong) in s.heap.items():
+                if loc != ("P", "self") or sel in ("*", "*k", "__copy_of__"):
+                    continue
+                n += 1
+                shared = [l for l in val.locs if l[0] == "G"]
+                inst = f"{fi.qualname}:{sel}"
+                if not shared:
+                    continue
+                g = shared[0]
+                mi = ctx.ix.module(g[1])
+                vals = mi.assigns.get(g[2], [])
+                mutable = any(isinstance(v, (ast.List, ast.Dict, ast.Set)) or (isinstance(v, ast.Call) and isinstance(v.func, ast.Name) and (ctx.ix.resolve(mi, v.func.id) or (None,))[0] == "class") for v in vals)
+                if mutable:
+                    res.bad(rule, inst, fi.site(), fi.qualname,
+                            f"field {sel} can hold the module-level object `{g[2]}` ({g[1]}): every {ci.name} created that way shares this one mutable object, so configuring one instance (e.g. replacing a distribution of its error model) silently reconfigures all the others", construct=f"{sel} <- {g[2]}")
+                else:
+                    res.ok(rule, inst, fi.site(), fi.qualname, f"holds the module constant {g[2]}")
+    return n
+
+
+def c7_stateless_operation(ctx, res: Result, fi: FuncInfo, rule="C7-operation-keeps-no-state", allowed_fields=()) -> None:
+    """The operation (and the private helpers it calls) assigns no field of its receiver: what it returns depends on its
+    arguments and the configuration only, never on what was computed by an earlier call."""
+    s = ctx.eng.summary(fi)
+    evs = [ev for ev in s.events if ev.kind in ("attr-store", "setattr", "callee") and ev.field and any(l == ("P", "self") for l in ev.locs) and ev.field not in allowed_fields]
+    evs = [ev for ev in evs if ev.kind != "callee" or ev.field]
+    seen = set()
+    for ev in evs:
+        if ev.field in seen:
+            continue
+        seen.add(ev.field)
+        res.bad(rule, f"{fi.qualname}:{ev.field}", ev.site(), fi.qualname,
+                f"{fi.qualname} assigns the receiver's field {ev.field} ({ev.detail[:80]}): a value derived from this call's arguments is kept on the object, so a later call can reuse it for a configuration it was not computed for", construct=src(ev.node)[:160])
+    if not evs:
+        res.ok(rule, fi.qualname, fi.site(), fi.qualname, "assigns no field of its receiver")
